@@ -33,14 +33,13 @@ F=[
  ("F24","C07","iterating over an empty PGEN","GenotypesPLINK.__iter__ on an empty .pgen/.pvar raises pgenlib's 'No variants in' RuntimeError although read() returns an empty matrix"),
  ("F25","C19","reports requested samples that are absent","requested samples absent from a PGEN file are dropped without any report (VCF reads and subset() do report them)"),
  ("F26","C15","zeroes constant columns whose mean","Phenotypes.standardize(): a constant column whose mean is not exactly representable (e.g. 0.1, 0.1, 0.1 or 5e-09 x 6) gets a tiny non-zero computed stdev and is standardised to all -1/+1 instead of all zeros"),
+ ("F27","C15","gives every repeated column name a suffix","Phenotypes.write: names (a, a, a-1) were written as (a, a-1, a-1): the -k suffix scheme collided with suffixed forms that are names in their own right (formerly known finding KF2; now theorem C15.names_made_unique)"),
  ("F23","C04","aligns the breakpoints with the genotype","transform --ancestry with a .bp file listing the samples in another order than the genotype file: every sample gets another sample's local ancestry"),
 ]
 out=[dict(id=i,property=p,status="fixed",commit=sha(pat),what=w) for i,p,pat,w in F]
 out += [
  dict(id="KF1",property="C08",status="known",section="restricted_reads",what="VCF region queries are overlap-based (tabix) while the PGEN path filters on POS only: a multi-base REF that starts before the region start and overlaps it is returned for VCF and not for PGEN (choosing a semantics is a maintainer decision)",
       signature=dict(kind="region_straddles_multibase_ref"), witness=None),
- dict(id="KF2",property="C15",status="known",section="names",what="duplicate phenotype names are made unique with -k suffixes, but the scheme is not injective when a suffixed form is already present: names (a, a, a-1) are written as (a, a-1, a-1)",
-      signature=dict(kind="suffix_collision"), witness=None),
 ]
 json.dump(out,open('/verif/known_findings.json','w'),indent=1,sort_keys=True)
 print(len(out),'entries')
